@@ -267,6 +267,7 @@ PROPS = {
         ],
     },
     "C07": {
+        "grammar_deviations": True,
         "files": ["a2lfile/src/parser.rs"],
         "trusted": T_STD,
         "assumptions": ["the enclosing block is represented by its stop list {S, T} (each block's real TAG_LIST is outside the claim)",
@@ -278,6 +279,10 @@ PROPS = {
              "timeout": 300, "quick": n <= 2, "extra_modules": ["tokenizer"], "must_cover": ["non-strict run"]}
             for k in ("kw", "block") for n in (0, 1, 2, 3)
         ] + [
+            {"engine": "E2", "module": "lib", "harness": "h_unknown_before_element_0", "functions": ["parser::ParserState::handle_unknown_taggedstruct_tag", "specification::*::parse (TAG_LIST of every block of the grammar)"],
+             "bound": "documents k = 0 (mod 2) of 265: an unknown keyword with three arguments directly in front of every element of the reference grammar inside its real parent (parents with an open-ended identifier list excluded)", "timeout": 600, "extra_modules": ["tokenizer"], "max_steps": 6000000, "validate": 20, "must_cover": ["unknown-element documents are in place"]},
+            {"engine": "E2", "module": "lib", "harness": "h_unknown_before_element_1", "functions": ["parser::ParserState::handle_unknown_taggedstruct_tag", "specification::*::parse (TAG_LIST of every block of the grammar)"],
+             "bound": "documents k = 1 (mod 2) of 265", "timeout": 600, "extra_modules": ["tokenizer"], "max_steps": 6000000, "validate": 20, "must_cover": ["unknown-element documents are in place"]},
             {"engine": "E2", "module": "lib", "harness": "h_unknown_in_real_blocks", "functions": ["load_from_string", "parser::ParserState::handle_unknown_taggedstruct_tag", "specification::{Module,RecordLayout,Measurement,Characteristic,AxisDescr,CompuMethod}::parse (their TAG_LISTs)"],
              "bound": "18 insertion points inside MODULE / RECORD_LAYOUT / MEASUREMENT / CHARACTERISTIC / AXIS_DESCR / COMPU_METHOD x 4 unknown payloads; model equality with the document without the element", "timeout": 600, "extra_modules": ["tokenizer"], "validate": 72},
         ],
@@ -457,6 +462,11 @@ PROPS = {
              "bound": "documents k = %d (mod 4) of the 1329 generated documents, strict and non-strict" % c, "timeout": 900, "extra_modules": ["tokenizer"], "max_steps": 6000000, "validate": 40,
              "must_cover": ["deviation documents are in place"]}
             for c in (0, 1, 2, 3)
+        ] + [
+            {"engine": "E2", "module": "lib", "harness": "h_grammar_readback_%d" % c, "functions": ["load_from_string", "specification::*::parse of every element of the reference grammar", "the public fields of the generated structs"],
+             "bound": "documents k = %d (mod 2) of 273 (parent, element) documents: every parameter read from the model by the field name of the reference grammar equals the value in the document" % c, "timeout": 600, "extra_modules": ["tokenizer"], "max_steps": 6000000, "validate": 20,
+             "must_cover": ["readback documents are in place"]}
+            for c in (0, 1)
         ] + [
             {"engine": "E2", "module": "lib", "harness": "h_every_element_roundtrip", "functions": ["load_from_string", "specification::*::parse / stringify of every element of the grammar in one document"],
              "bound": "one document with every element of the grammar valid at version 1.71 (all _X.._5 variants side by side), generated from the DSL of the tree under check: strict load without diagnostics, values written back", "timeout": 900, "extra_modules": ["tokenizer"], "max_steps": 300000000,
